@@ -28,7 +28,7 @@ EXPLANATION = (
     'uses the same width/fill/unpack; R5 get_link_driver returns the first instance whose connect returns, continues only on '
     'WrongUriType, returns None after the loop; open_link turns None and any exception into connection_failed.')
 ASSUMPTIONS = ['urlparse/parse_qs/binascii.unhexlify behave as documented', 'optional drivers are only those init_drivers() can append']
-FLOORS = {'R1': 8, 'R2': 12, 'R3': 1, 'R4': 9, 'R5': 6}
+FLOORS = {'R1': 8, 'R2': 13, 'R3': 1, 'R4': 9, 'R5': 6}
 
 RATES = {'250K': 'DR_250KPS', '1M': 'DR_1MPS', '2M': 'DR_2MPS'}
 
@@ -172,6 +172,10 @@ def check(ctx):
     dv = assigns('devid')
     ok = len(dv) == 2 and norm(dv[0].ast.value) == 'int(parsed_uri.netloc)' and norm(dv[1].ast.value) == 'crazyradio.get_serials().index(parsed_uri.netloc.upper())'
     ctx.inst('R2', pu, 'dongle-id', ok and fact_key('parsed_uri.netloc.isdigit()', True) in g.fact_keys_at(dv[0]), 'numeric dongle ids are used directly, serial numbers are looked up')
+    ks = g.fact_keys_at(dv[0]) if dv else set()
+    okl = any(fact_key(t) in ks for t in ('len(parsed_uri.netloc) < 10', 'len(parsed_uri.netloc) <= 9', '10 > len(parsed_uri.netloc)', '9 >= len(parsed_uri.netloc)'))
+    ctx.inst('R2', pu, 'dongle-index-shorter-than-serial', okl, 'a dongle serial number is 10 characters and may consist of digits only: the id is read as an index only if it is shorter than 10 characters; '
+             'guards of the index branch: %s' % sorted(ks))
     rets = [norm(n.ast.value) for n in g.nodes if n.kind == 'return']
     ctx.inst('R2', pu, 'result-order', rets == ['(devid, channel, datarate, address, rate_limit)'], 'parse_uri returns (devid, channel, datarate, address, rate_limit)')
     con = m.func(RD, 'RadioDriver.connect')
@@ -264,6 +268,7 @@ def check(ctx):
 
 
 VARIANTS = [
+    M('R2', RD, "        if len(parsed_uri.netloc) < 10 and parsed_uri.netloc.isdigit():", "        if parsed_uri.netloc.isdigit():", 'all-digit serial read as an index'),
     M('R1', 'cflib/crtp/tcpdriver.py', "        if not re.search('^tcp://', uri):\n            raise WrongUriType('Not an UDP URI')\n", "", 'tcp driver claims everything'),
     M('R1', 'cflib/crtp/udpdriver.py', "        if not re.search('^udp://', uri):", "        if not re.search('^tcp://', uri):", 'udp driver claims tcp'),
     M('R2', RD, "            addr = '{:0>10}'.format(parsed_path[2])", "            addr = '{:0<10}'.format(parsed_path[2])", 'right padding'),
